@@ -789,6 +789,13 @@ def gen_cases(ctx):
         '\\ud800', '\\udc00', '\\udc00\\ud800', '\\ud800x\\udc00', '\\ud800\\u0041', '\\\\/', '\\\\\\/', '\\\\ud83d\\\\ude00',
         '\u00e9\U0001f600', '/', "'", "it's", '\\u0000', '\\u001f', '\x7f', '\\u2028\\u2029', '\ufeff', '\\u005c\\u002f',
         '\\\\u002f', 'a\\/b\\/c', '<\\/script>')] + [
+        ('str', '\ufeffabc'), ('str', '\ufffehello'), ('str', '\\ufeffx'), ('str', '\\ufffe'), ('str', 'a\ufeff'),
+        ('obj', [('\ufeffk', ('num', '1')), ('\\ufffe', ('str', '\ufffe'))]),
+        # many values of one kind in one program (anything a traversal accumulates per value shows here)
+        ('arr', [('num', '-%d' % (i + 1)) for i in range(400)]),
+        ('arr', [('arr', [('num', '-%d.5' % i), ('num', '%d' % i)]) for i in range(500)]),
+        ('obj', [('k%d' % i, ('num', '-%de2' % i)) for i in range(600)]),
+        ('arr', [('str', 's%d' % i) for i in range(700)]),
         ('arr', []), ('obj', []), ('arr', [('arr', [])]), ('arr', [('obj', [])]), ('obj', [('', ('null',))]),
         ('obj', [('a', ('num', '1')), ('a', ('num', '2'))]),
         ('obj', [('a', ('num', '1')), ('b', ('num', '2')), ('a', ('num', '3'))]),
